@@ -28,8 +28,8 @@ _COUNTER = [0]
 
 
 def make_scenario(hist: list[dict], rng: random.Random, idx: int, *, kinds: tuple = KINDS) -> dict:
-    kind = kinds[idx % len(kinds)]
-    loop = "uvloop" if (idx // len(kinds)) % 2 else "asyncio"
+    kind = rng.choice(kinds)        # (drawn, not derived from idx: idx is correlated with the script source)
+    loop = rng.choice(["asyncio", "uvloop"])
     bufsize = rng.choice([4096, 8192, 16384, 65536, 0])        # 0: kernel defaults (autotuning)
     base = bufsize or 65536
     unit = min(65536, rng.choice([1, 3, 257, 4096, base // 2, base, 2 * base, 4 * base]))
